@@ -52,12 +52,13 @@
 (*     and the runtime picks at random.  S7 is therefore violated: with       *)
 (*     RandomSelect = TRUE TLC must find the counterexample (sensitivity),    *)
 (*     with FALSE (the design the comments describe) S7 holds.                *)
-(*  D2 (Draining) after the client dropped the GET while a tool handler is    *)
-(*     still running, the transport is not closed until the handler returns:  *)
-(*     the session stays in the table, nobody reads the queue, POSTs are      *)
-(*     answered 202 and their messages are never delivered (S6 has the        *)
-(*     premise "stays open" for this reason; S7 is about sessions whose close *)
-(*     has taken effect).                                                     *)
+(*  D2 (Closing) after the client dropped the GET, or the server called       *)
+(*     Close, while a tool handler is still running, the transport is not     *)
+(*     closed until the handler returns (graceful shutdown of jsonrpc2): the  *)
+(*     session stays in the table, POSTs are answered 202 and read, calls are *)
+(*     answered with an error on the stream nobody may be listening to,       *)
+(*     notifications are dropped.  S7 is about sessions whose close has taken *)
+(*     effect; "delivered" means "read from the transport".                   *)
 (*                                                                            *)
 (* One action per protocol step / critical section:                           *)
 (*   Get            SSEHandler.ServeHTTP GET: rand.Text(), table insert,      *)
@@ -70,10 +71,12 @@
 (*   Deliver/Read   sseServerConn.Read                                        *)
 (*   Respond        the server's handler writes its response (Write)          *)
 (*   Send           sseServerConn.Write of a server-initiated message         *)
-(*   Disconnect     the GET's request context is cancelled                    *)
-(*   ConnClose      deferred ss.Close() of the GET handler reaches            *)
-(*                  sseServerConn.Close (only once no handler is running)     *)
-(*   Close          ServerSession.Close / Connection.Close by the server      *)
+(*   Disconnect     the GET's request context is cancelled: the GET handler   *)
+(*                  wakes up and calls its deferred ss.Close()                *)
+(*   Close          ServerSession.Close by the server (Direct: the            *)
+(*                  Connection's Close, which closes the transport at once)   *)
+(*   ConnClose      jsonrpc2 reaches sseServerConn.Close (only once no        *)
+(*                  handler is running)                                       *)
 (*   GetExit        GET handler returns: deferred delete from the table       *)
 (* Two configurations: Direct = FALSE is SSEHandler + Server (the reader is   *)
 (* the SDK's read loop: Deliver is internal and eager); Direct = TRUE is a    *)
@@ -104,6 +107,8 @@ VARIABLES nopen,    \* sessions opened so far
           st,       \* [Sess -> "free" | "open" | "closed"]   transport: closed flag / done channel
           get,      \* [Sess -> "none" | "run" | "cancelled" | "exited"]  the hanging GET
           reading,  \* [Sess -> BOOLEAN]  the server's read loop still consumes the queue
+          closing,  \* [Sess -> BOOLEAN]  ServerSession.Close has been called (jsonrpc2 "closing")
+          lost,     \* [Sess -> SUBSET Posts] notifications read and dropped by a closing connection
           q,        \* [Sess -> Seq(Posts)]  t.incoming
           got,      \* [Sess -> Seq(Posts)]  messages Read has returned, in order
           eofs,     \* [Sess -> Nat]         Reads that returned io.EOF (Direct)
@@ -114,7 +119,7 @@ VARIABLES nopen,    \* sessions opened so far
           post,     \* [Posts -> record]
           prec,     \* ghost: <<p1, p2>> : POST p1 had completed when POST p2 began
           late      \* ghost: [Posts -> "" | "closed" | "exited"] state of the target when the POST began
-vars == <<nopen, tab, st, get, reading, q, got, eofs, hand, ended, out, sres, post, prec, late>>
+vars == <<nopen, tab, st, get, reading, closing, lost, q, got, eofs, hand, ended, out, sres, post, prec, late>>
 
 NewPost == [ph |-> "new", tgt |-> NoId, kind |-> "call", gated |-> FALSE, rel |-> FALSE, status |-> 0]
 Endpoint(s) == <<"endpoint", s>>
@@ -124,6 +129,7 @@ NoteEv(n) == <<"message", "n", n>>
 Init ==
   /\ nopen = 0 /\ tab = {}
   /\ st = [s \in Sess |-> "free"] /\ get = [s \in Sess |-> "none"] /\ reading = [s \in Sess |-> FALSE]
+  /\ closing = [s \in Sess |-> FALSE] /\ lost = [s \in Sess |-> {}]
   /\ q = [s \in Sess |-> <<>>] /\ got = [s \in Sess |-> <<>>] /\ eofs = [s \in Sess |-> 0]
   /\ hand = [s \in Sess |-> {}] /\ ended = {}
   /\ out = [s \in Sess |-> <<>>] /\ sres = [s \in Sess |-> <<>>]
@@ -143,7 +149,7 @@ Get ==
        /\ st' = [st EXCEPT ![s] = "open"] /\ get' = [get EXCEPT ![s] = IF Direct THEN "none" ELSE "run"]
        /\ reading' = [reading EXCEPT ![s] = TRUE]
        /\ out' = [out EXCEPT ![s] = <<Endpoint(s)>>]
-  /\ UNCHANGED <<q, got, eofs, hand, ended, sres, post, prec, late>>
+  /\ UNCHANGED <<closing, lost, q, got, eofs, hand, ended, sres, post, prec, late>>
 
 \* GET while getServer returns nil: 400, the table entry is removed again (no state change)
 GetRefused == ~Direct /\ UNCHANGED vars
@@ -163,13 +169,13 @@ PostLookup(tgt, kind, gated) ==
        /\ late' = [late EXCEPT ![p] = IF tgt \notin Sess THEN ""
                                       ELSE IF get[tgt] = "exited" THEN "exited"
                                       ELSE IF st[tgt] = "closed" THEN "closed" ELSE ""]
-  /\ UNCHANGED <<nopen, tab, st, get, reading, q, got, eofs, hand, ended, out, sres>>
+  /\ UNCHANGED <<nopen, tab, st, get, reading, closing, lost, q, got, eofs, hand, ended, out, sres>>
 
 \* (harness) the body of a gated POST becomes readable
 Release(p) ==
   /\ post[p].ph = "body" /\ post[p].gated /\ ~post[p].rel
   /\ post' = [post EXCEPT ![p].rel = TRUE]
-  /\ UNCHANGED <<nopen, tab, st, get, reading, q, got, eofs, hand, ended, out, sres, prec, late>>
+  /\ UNCHANGED <<nopen, tab, st, get, reading, closing, lost, q, got, eofs, hand, ended, out, sres, prec, late>>
 
 \* POST, second half (SSEServerTransport.ServeHTTP): read + decode + checkRequest, then select
 Finish(p, status) == post' = [post EXCEPT ![p].ph = "done", ![p].status = status]
@@ -182,77 +188,81 @@ PostBody(p) ==
        THEN \/ Finish(p, 400) /\ UNCHANGED q
             \/ RandomSelect /\ Len(q[s]) < Cap /\ Finish(p, 202) /\ Push(p, s)     \* D1
        ELSE Len(q[s]) < Cap /\ Finish(p, 202) /\ Push(p, s)                        \* full queue: the POST waits
-  /\ UNCHANGED <<nopen, tab, st, get, reading, got, eofs, hand, ended, out, sres, prec, late>>
+  /\ UNCHANGED <<nopen, tab, st, get, reading, closing, lost, got, eofs, hand, ended, out, sres, prec, late>>
 
 \* sseServerConn.Read returns the head of the queue
+\* (a closing connection - D2 - refuses a request at once: its "handler" is over before it began;
+\* it drops a notification)
 Take(s) ==
-  LET p == Head(q[s]) IN
+  LET p == Head(q[s])
+      isreq == post[p].kind \in {"call", "slow"} IN
   /\ q' = [q EXCEPT ![s] = Tail(@)]
-  /\ got' = [got EXCEPT ![s] = Append(@, p)]
-  /\ hand' = IF ~Direct /\ post[p].kind \in {"call", "slow"} THEN [hand EXCEPT ![s] = @ \cup {p}] ELSE hand
+  /\ IF ~Direct /\ closing[s] /\ ~isreq
+     THEN lost' = [lost EXCEPT ![s] = @ \cup {p}] /\ UNCHANGED got
+     ELSE got' = [got EXCEPT ![s] = Append(@, p)] /\ UNCHANGED lost
+  /\ hand' = IF ~Direct /\ isreq THEN [hand EXCEPT ![s] = @ \cup {p}] ELSE hand
+  /\ ended' = IF ~Direct /\ isreq /\ closing[s] THEN ended \cup {p} ELSE ended
 \* the SDK's read loop (SSEHandler + Server)
 Deliver(s) ==
   /\ ~Direct /\ reading[s] /\ q[s] # <<>> /\ Take(s)
-  /\ UNCHANGED <<nopen, tab, st, get, reading, eofs, ended, out, sres, post, prec, late>>
+  /\ UNCHANGED <<nopen, tab, st, get, reading, closing, eofs, out, sres, post, prec, late>>
 \* an explicit Read on the bare transport's Connection; a Read on an open, empty queue blocks (not a step)
 Read(s) ==
   /\ Direct /\ st[s] # "free"
   /\ \/ q[s] # <<>> /\ Take(s) /\ UNCHANGED eofs                                     \* (also when closed: select)
-     \/ st[s] = "closed" /\ eofs' = [eofs EXCEPT ![s] = @ + 1] /\ UNCHANGED <<q, got, hand>>
-  /\ UNCHANGED <<nopen, tab, st, get, reading, ended, out, sres, post, prec, late>>
+     \/ st[s] = "closed" /\ eofs' = [eofs EXCEPT ![s] = @ + 1] /\ UNCHANGED <<q, got, hand, lost, ended>>
+  /\ UNCHANGED <<nopen, tab, st, get, reading, closing, out, sres, post, prec, late>>
 
 \* the handler of a delivered request answers: sseServerConn.Write under t.mu
-CanWrite(s) == st[s] = "open" /\ (Direct \/ get[s] = "run")
+CanWrite(s) == st[s] = "open"
 Respond(s, p) ==
   /\ p \in hand[s] /\ (post[p].kind = "slow" => p \in ended)
   /\ hand' = [hand EXCEPT ![s] = @ \ {p}]
-  /\ \/ CanWrite(s) /\ out' = [out EXCEPT ![s] = Append(@, RespEv(p))]
-     \* GET context cancelled, transport not closed yet: the response of a handler that outlived the
-     \* client is written or dropped depending on the context it is written with
-     \/ ~CanWrite(s) /\ st[s] = "open" /\ out' \in {out, [out EXCEPT ![s] = Append(@, RespEv(p))]}
-     \/ st[s] # "open" /\ UNCHANGED out
-  /\ UNCHANGED <<nopen, tab, st, get, reading, q, got, eofs, ended, sres, post, prec, late>>
+  /\ IF CanWrite(s) THEN out' = [out EXCEPT ![s] = Append(@, RespEv(p))] ELSE UNCHANGED out
+  /\ UNCHANGED <<nopen, tab, st, get, reading, closing, lost, q, got, eofs, ended, sres, post, prec, late>>
 
 \* (environment) a slow handler is allowed to return
 EndSlow(p) ==
   /\ post[p].kind = "slow" /\ p \notin ended /\ \E s \in Sess : p \in hand[s]
   /\ ended' = ended \cup {p}
-  /\ UNCHANGED <<nopen, tab, st, get, reading, q, got, eofs, hand, out, sres, post, prec, late>>
+  /\ UNCHANGED <<nopen, tab, st, get, reading, closing, lost, q, got, eofs, hand, out, sres, post, prec, late>>
 
-\* a server-initiated message (notification): Write; refused once the connection is closing or its
-\* reader has failed (SSEHandler + Server: jsonrpc2 refuses new work then)
+\* a server-initiated message (notification): Write; it succeeds as long as the transport is not closed
+\* (also while jsonrpc2 is "closing": notifications are still sent then)
 Send(s) ==
   /\ st[s] # "free" /\ Len(sres[s]) < MaxSend
   /\ LET n == Len(sres[s]) + 1 IN
        IF CanWrite(s)
        THEN out' = [out EXCEPT ![s] = Append(@, NoteEv(n))] /\ sres' = [sres EXCEPT ![s] = Append(@, TRUE)]
        ELSE UNCHANGED out /\ sres' = [sres EXCEPT ![s] = Append(@, FALSE)]
-  /\ UNCHANGED <<nopen, tab, st, get, reading, q, got, eofs, hand, ended, post, prec, late>>
+  /\ UNCHANGED <<nopen, tab, st, get, reading, closing, lost, q, got, eofs, hand, ended, post, prec, late>>
 
-\* the client drops the GET: request context cancelled; the read loop (same context) stops
+\* the client drops the GET: its handler wakes up and runs the deferred ss.Close() (the read loop
+\* has a context of its own and goes on)
 Disconnect(s) ==
   /\ ~Direct /\ get[s] = "run" /\ st[s] = "open"
-  /\ get' = [get EXCEPT ![s] = "cancelled"] /\ reading' = [reading EXCEPT ![s] = FALSE]
-  /\ UNCHANGED <<nopen, tab, st, q, got, eofs, hand, ended, out, sres, post, prec, late>>
+  /\ get' = [get EXCEPT ![s] = "cancelled"] /\ closing' = [closing EXCEPT ![s] = TRUE]
+  /\ UNCHANGED <<nopen, tab, st, reading, lost, q, got, eofs, hand, ended, out, sres, post, prec, late>>
 
-\* the GET handler's deferred ss.Close(): the transport is closed once no handler is running (D2)
-ConnClose(s) ==
-  /\ ~Direct /\ st[s] = "open" /\ get[s] = "cancelled" /\ hand[s] = {}
-  /\ st' = [st EXCEPT ![s] = "closed"]
-  /\ UNCHANGED <<nopen, tab, get, reading, q, got, eofs, hand, ended, out, sres, post, prec, late>>
-
-\* the server closes the session (ServerSession.Close / Connection.Close).  Environment restriction: not
-\* while one of its handlers is running (graceful shutdown of jsonrpc2 is the subject of C05)
+\* the server closes the session: ServerSession.Close (graceful, D2); Direct: Connection.Close
 Close(s) ==
-  /\ st[s] = "open" /\ hand[s] = {} /\ (~Direct => get[s] = "run")
+  /\ st[s] = "open" /\ ~closing[s]
+  /\ closing' = [closing EXCEPT ![s] = TRUE]
+  /\ IF Direct THEN st' = [st EXCEPT ![s] = "closed"] /\ reading' = [reading EXCEPT ![s] = FALSE]
+     ELSE UNCHANGED <<st, reading>>
+  /\ UNCHANGED <<nopen, tab, get, lost, q, got, eofs, hand, ended, out, sres, post, prec, late>>
+
+\* jsonrpc2 is idle and closing: sseServerConn.Close (closed flag, done channel); the read loop ends
+ConnClose(s) ==
+  /\ ~Direct /\ st[s] = "open" /\ closing[s] /\ hand[s] = {}
   /\ st' = [st EXCEPT ![s] = "closed"] /\ reading' = [reading EXCEPT ![s] = FALSE]
-  /\ UNCHANGED <<nopen, tab, get, q, got, eofs, hand, ended, out, sres, post, prec, late>>
+  /\ UNCHANGED <<nopen, tab, get, closing, lost, q, got, eofs, hand, ended, out, sres, post, prec, late>>
 
 \* the hanging GET returns (transport.done or the context woke it, ss.Close() has returned): table delete
 GetExit(s) ==
   /\ ~Direct /\ st[s] = "closed" /\ get[s] \in {"run", "cancelled"}
   /\ get' = [get EXCEPT ![s] = "exited"] /\ tab' = tab \ {s}
-  /\ UNCHANGED <<nopen, st, reading, q, got, eofs, hand, ended, out, sres, post, prec, late>>
+  /\ UNCHANGED <<nopen, st, reading, closing, lost, q, got, eofs, hand, ended, out, sres, post, prec, late>>
 
 -----------------------------------------------------------------------------
 Internal ==
@@ -289,13 +299,15 @@ TypeOK ==
   /\ nopen \in 0..MaxSess /\ tab \subseteq Sess
   /\ st \in [Sess -> {"free", "open", "closed"}]
   /\ get \in [Sess -> {"none", "run", "cancelled", "exited"}]
-  /\ reading \in [Sess -> BOOLEAN]
+  /\ reading \in [Sess -> BOOLEAN] /\ closing \in [Sess -> BOOLEAN]
   /\ \A s \in Sess : /\ q[s] \in Seq(Posts) /\ got[s] \in Seq(Posts) /\ Len(q[s]) <= Cap
                      /\ hand[s] \subseteq Posts /\ out[s] \in Seq(Events) /\ sres[s] \in Seq(BOOLEAN)
   /\ ended \subseteq Posts
   /\ \A p \in Posts : post[p].ph \in {"new", "body", "done"} /\ post[p].tgt \in Targets /\ post[p].kind \in Kinds
 
-Handed(s) == got[s] \o q[s]       \* everything the transport took for s, in push order
+\* everything the transport took for s and did not drop, in push order
+Handed(s) == got[s] \o q[s]
+Taken(s) == Range(got[s]) \cup Range(q[s]) \cup lost[s]
 Pos(seq, x) == CHOOSE i \in DOMAIN seq : seq[i] = x
 
 \* S1
@@ -306,13 +318,14 @@ EndpointFirst ==
 \* S2
 Routing ==
   \A s \in Sess :
-    /\ \A p \in Range(Handed(s)) : post[p].tgt = s
+    /\ \A p \in Taken(s) : post[p].tgt = s
     /\ \A i \in DOMAIN out[s] : out[s][i][1] = "message" /\ out[s][i][2] = "r" => post[out[s][i][3]].tgt = s
 \* S3
 AtMostOnce ==
   /\ \A s \in Sess : \A i, j \in DOMAIN Handed(s) : i # j => Handed(s)[i] # Handed(s)[j]
-  /\ \A s1, s2 \in Sess : s1 # s2 => Range(Handed(s1)) \cap Range(Handed(s2)) = {}
-  /\ \A s \in Sess : \A p \in Range(Handed(s)) : post[p].ph = "done" /\ post[p].status = 202
+  /\ \A s1, s2 \in Sess : s1 # s2 => Taken(s1) \cap Taken(s2) = {}
+  /\ \A s \in Sess : lost[s] \cap Range(Handed(s)) = {}
+  /\ \A s \in Sess : \A p \in Taken(s) : post[p].ph = "done" /\ post[p].status = 202
   /\ \A s \in Sess : \A i, j \in DOMAIN out[s] : i # j => out[s][i] # out[s][j]
   /\ \A s \in Sess : \A n \in DOMAIN sres[s] : sres[s][n] <=> (\E i \in DOMAIN out[s] : out[s][i] = NoteEv(n))
 \* S4
@@ -326,7 +339,7 @@ Order ==
 Refusal ==
   \A p \in DonePosts :
     /\ (post[p].tgt \in {NoId, Unknown} \/ ~Good(post[p].kind)) => post[p].status \in 400..499
-    /\ post[p].status # 202 => \A s \in Sess : p \notin Range(Handed(s))
+    /\ post[p].status # 202 => \A s \in Sess : p \notin Taken(s)
     /\ late[p] = "exited" => post[p].status \in {404, 415}
 \* S7 (as an invariant over completed POSTs and as action properties)
 ClosedRefuses == \A p \in DonePosts : late[p] # "" => post[p].status >= 400
@@ -343,8 +356,8 @@ Monotone == [][/\ \A s \in Sess : /\ Len(got'[s]) >= Len(got[s]) /\ SubSeq(got'[
 
 \* S6, S8: liveness under Fair
 Delivered == \A s \in Sess : \A p \in Posts :
-               (p \in Range(q[s])) ~> (p \in Range(got[s]) \/ ~reading[s])
-NoLeak == \A s \in Sess : (get[s] = "cancelled" \/ st[s] = "closed") ~> (Direct \/ (s \notin tab /\ get[s] = "exited"))
+               (p \in Range(q[s])) ~> (p \in Range(got[s]) \/ p \in lost[s] \/ ~reading[s])
+NoLeak == \A s \in Sess : (closing[s] \/ st[s] = "closed") ~> (Direct \/ (s \notin tab /\ get[s] = "exited"))
 PostsEnd == \A p \in Posts : (post[p].ph = "body") ~> (post[p].ph = "done")
 
 \* what a settled harness step looks like: nothing internal is enabled
